@@ -136,9 +136,15 @@ def MW.take (s : MW) : MW × Bytes := ({ s with out := [] }, s.out)
 def MW.nextRequestId (s : MW) : Option (MW × Nat) :=
   (addU32 s.lastReq 1).map fun r => ({ s with lastReq := r }, r)
 
-/-! ### reading the sequence header of an emitted chunk (MSG, symmetric header) -/
+/-! ### reading the sequence header of an emitted chunk -/
 
-def chunkSeq (ch : Bytes) : Option Nat := (readU32 (ch.drop 16)).map (·.1)
-def chunkReq (ch : Bytes) : Option Nat := (readU32 (ch.drop 20)).map (·.1)
+/-- offset of the sequence header: 12 bytes chunk header + security header (asymmetric/None for an
+`OPN` chunk — 59 bytes —, the 4-byte token id otherwise) -/
+def seqOffset : Bytes → Nat
+  | 79 :: _ => 12 + 59          -- 'O'PN
+  | _ => 12 + 4
+
+def chunkSeq (ch : Bytes) : Option Nat := (readU32 (ch.drop (seqOffset ch))).map (·.1)
+def chunkReq (ch : Bytes) : Option Nat := (readU32 (ch.drop (seqOffset ch + 4))).map (·.1)
 
 end OpcuaVerif.C12
